@@ -19,7 +19,7 @@ var initAllowStd = map[string]bool{
 	"sort": true, "math": true, "math/bits": true, "io": true, "container/list": true, "container/heap": true,
 	"slices": true, "maps": true, "cmp": true, "path": true, "bufio": true, "io/fs": true,
 	"path/filepath": true, "encoding/binary": true, "encoding/hex": true, "context": true, "archive/tar": true,
-	"os": true, "syscall": true, "time": true, "internal/oserror": true, "encoding/base64": true,
+	"internal/oserror": true, "encoding/base64": true,
 }
 
 func (i *interpreter) initAllowed(path string) bool {
